@@ -23,6 +23,25 @@
       elements are the key list, otherwise the operand list itself;
   K6  threshold: missing_some returns the empty array exactly on the edge
       `present >= threshold` and the missing list on the other.
+
+K2–K6 are read on shape-independent representations (DESIGN §2 E2b), on the view of the program in which the private
+helpers and methods of the two operators (never the shared lookup) stand at their call sites (`flat_view`):
+  * the per-key step — the closure handed to the iterator consumer or one iteration of the loop, whichever holds the
+    lookup — is enumerated path by path (`x_step.StepWalker`, one walk per key kind); each path is a row of the table
+    key kind × lookup result (None/Some/is_none/is_some atoms on the lookup call) → pushes, contains-guards, count delta;
+    K2.null-skipped, K3.push-absent, K3.count-present-only, K3.increment(-by-one), K4.push-key, K4.distinct and the two
+    converses K3.absent-reported / K3.present-counted are statements about rows;
+  * the present count is either the accumulator the closure returns (delta = result relative to the parameter) or a
+    storage cell updated in place — a local or a field of a local struct, resolved through `&mut` temporaries
+    (`x_step.cell_of`) — (delta = the constant increments stored on the path);
+  * K6: the comparison after the scan, operands classified as count / threshold (an exact u64 reading of operand 0:
+    Number::as_u64 or Value::as_u64; as_i64/as_f64 are violations), operator normalised, outcomes = what every path
+    from each edge returns (a vector created after the decision is empty, one created before it is the list);
+  * K5: the paths of `missing` up to the scan(s): the scanned sequence is operand 0's Array payload (operand
+    descriptor fixed(ALL)[0]) or the operand list on paths where operand 0 is known not to be an array / absent; and no
+    operand other than operand 0 has its kind examined.
+A form that cannot be read (opaque calls on the path, a test on the lookup result that is not None/Some, an unknown
+guard) is reported with ctx.unread, never as a violation and never as a pass.
 """
 import re
 from .core import (callee_of, callee_path, strip_refs, strip_payload, show_expr, const_value, expr_mentions, op_const, edge_dominates, bool_edge, switch_edges_for_variant)
@@ -30,62 +49,116 @@ from .engine import Inconclusive
 from .roles import Roles
 from .opfacts import Unit
 from . import prov as P
+from . import pathsum, operands, accum, panic as PN
+from .x_step import StepWalker, cell_of, reads_cell, cell_writes, initial_operand, overlaps
 
 VALUE = "serde_json::Value"
 CLONE = "<serde_json::Value as std::clone::Clone>::clone"
 PUSH = "std::vec::Vec::<T, A>::push"
+COPY_OF = (CLONE, "<T as std::borrow::ToOwned>::to_owned", "<T as std::clone::Clone>::clone")
+# reading a JSON value as an unsigned integer, exactly (None for negative, fractional and non-numbers)
+U64_EXACT = ("serde_json::Number::as_u64", "serde_json::Value::as_u64")
+U64_WRONG = re.compile(r"^serde_json::(Number|Value)::as_(i64|f64)$")
+CMP_SWAP = {"Ge": "Le", "Le": "Ge", "Gt": "Lt", "Lt": "Gt"}
+CMP_NEG = {"Ge": "Lt", "Lt": "Ge", "Gt": "Le", "Le": "Gt"}
 
 
 def lookup_role(roles):
+    """The shared lookup, by type: the one function of two parameters — the data (&Value) and a key (KeyType, by value or
+    by reference, in either position: a free function or a method of the key) — returning Option<Value>."""
     facts = roles.facts
     c = []
     for b in facts.fns():
         it = facts.items.get(b.key, {})
-        if b.kind == "fn" and len(it.get("inputs", [])) == 2 and it["inputs"][0] == "&serde_json::Value" and it.get("output") == "std::option::Option<serde_json::Value>" and "KeyType" in it["inputs"][1]:
-            c.append(b)
+        ins = it.get("inputs", [])
+        if b.kind == "fn" and len(ins) == 2 and it.get("output") == "std::option::Option<serde_json::Value>":
+            d = [i for i, t in enumerate(ins) if t == "&serde_json::Value"]
+            k = [i for i, t in enumerate(ins) if "KeyType" in t and "Value" not in t]
+            if len(d) == 1 and len(k) == 1:
+                b.data_param, b.key_param = d[0] + 1, k[0] + 1
+                c.append(b)
     if len(c) != 1:
         raise Inconclusive("shared lookup (&Value, KeyType) → Option<Value> not identified (%d candidates)" % len(c))
     return c[0]
 
 
+def lookup_key_adt(lookup):
+    kp = getattr(lookup, "key_param", 2)
+    adt = lookup.locals[kp].get("adt")
+    if not adt:
+        adt = re.sub(r"^&('\w+ )?(mut )?", "", lookup.locals[kp]["ty"]).split("<")[0]
+    return adt
+
+
 def key_typing(ctx, facts, roles, key_adt, cfg, K):
-    """Which JSON kinds become which key kinds — the same matrix in both conversions (from Value, from &Value)."""
+    """Which JSON kinds become which key kinds — one decision table per conversion (from Value, from &Value), read
+    from the decision cases of the conversion (match arms, guards, `?`, Option/Result combinators alike) with the
+    private helpers the conversions delegate to standing at their call sites."""
+    from . import inline, optnorm
     items = facts.items
-    convs = [b for b in facts.fns() if b.kind == "fn" and items.get(b.key, {}).get("output", "").startswith("std::result::Result<%s" % key_adt) and items[b.key].get("inputs") in (["serde_json::Value"], ["&serde_json::Value"])]
-    ctx.floor("KeyType conversions (%s)" % cfg, len(convs), 2)
+
+    def is_conv(f, b):
+        return b.kind == "fn" and f.items.get(b.key, {}).get("output", "").startswith("std::result::Result<%s" % key_adt) and f.items[b.key].get("inputs") in (["serde_json::Value"], ["&serde_json::Value"])
+    convs = [b for b in facts.fns() if is_conv(facts, b)]
+    try:
+        path = ctx.fact_paths[(cfg, "jsonlogic_rs", "debug")]
+        cands = set(inline.candidates(path))
+        helpers = set()
+        for cb in convs:
+            for x in Unit(roles, cb.key, extended=True).bodies:
+                if x.kind == "fn" and x.key in cands:
+                    helpers.add(x.key)
+        if helpers:
+            view = inline.load_view(path, sorted(helpers | set(h for h in ctx.inline_set if h.startswith("jsonlogic_rs::"))))
+            vconvs = [b for b in view.fns() if is_conv(view, b)]
+            if vconvs:
+                facts, convs = view, vconvs
+    except Exception:
+        pass
+    ctx.floor("KeyType conversions (%s)" % cfg, len(convs), 1)
+    variants = set(facts.variants(key_adt))
+
+    def outcome(val):
+        x = strip_refs(val)
+        if x[0] == "agg" and x[1].get("variant") == "Ok" and x[2]:
+            k = strip_refs(x[2][0])
+            if k[0] == "agg" and k[1].get("adt") == key_adt:
+                return "OK(%s)" % k[1].get("variant"), k
+            if k[0] == "call" and k[1] is not None and k[1]["path"].rsplit("::", 1)[-1] in variants and key_adt.rsplit("::", 1)[-1] in k[1]["path"]:
+                return "OK(%s)" % k[1]["path"].rsplit("::", 1)[-1], k
+            return "?", k
+        if (x[0] == "agg" and x[1].get("variant") == "Err") or (x[0] == "call" and x[1] is not None and "from_residual" in x[1]["path"]):
+            return "ERR", x
+        return "?", x
+    want = {"Null": "OK(Null)", "String": "OK(String)", "Number": "ERR+OK(Number)+via as_i64", "Bool": "ERR", "Array": "ERR", "Object": "ERR"}
     mats = []
     for cb in convs:
         m = {}
-        u = Unit(roles, cb.key)
         for v in facts.variants(VALUE):
-            restrict = P.specialise_unit(roles, cb.key, lambda e, a, _v=v: _v if (a == VALUE and e == ("arg", 1)) else None)
-            blocks = restrict[cb.key]
-            with cb.restricted(blocks):
-                r = strip_refs(cb.trace(0))
-            paths = [callee_path(cb.blocks[bi]["term"]) for bi in sorted(blocks) if cb.blocks[bi]["term"]["k"] == "Call" and callee_of(cb.blocks[bi]["term"])]
-            cands = [strip_refs(x) for x in r[2]] if r[0] == "phi" else [r]
+            cases = optnorm.decision_cases(facts, cb, known=lambda e, adt, _v=v: _v if (adt == VALUE and strip_refs(e) == ("arg", 1)) else None)
+            key = "%s: %s key (%s)" % (cb.key.split("::", 1)[1], v, cfg)
+            if not cases:
+                m[v] = None
+                ctx.unread(K + ".key-typing", key, "the conversion's decision cases could not be enumerated (loops or too many paths)", where=cb.where(), fn=cb.key)
+                continue
             kinds = set()
-            for c in cands:
-                if c[0] == "agg" and c[1].get("variant") == "Ok":
-                    k = strip_refs(c[2][0])
-                    kinds.add("OK(%s)" % (k[1].get("variant") if k[0] == "agg" else "?"))
-                elif c[0] == "agg" and c[1].get("variant") == "Err":
-                    kinds.add("ERR")
-                elif c[0] == "call" and "from_residual" in c[1]["path"]:
-                    kinds.add("ERR")
-                else:
-                    kinds.add("?")
-            if "serde_json::Number::as_i64" in paths:
-                kinds.add("via as_i64")
-            m[v] = "+".join(sorted(kinds))
-        mats.append((cb, m))
-        want = {"Null": "OK(Null)", "String": "OK(String)", "Number": "ERR+OK(Number)+via as_i64", "Bool": "ERR", "Array": "ERR", "Object": "ERR"}
-        for v, got in m.items():
-            ctx.check(got == want[v], K + ".key-typing", "%s: %s key (%s)" % (cb.key.split("::", 1)[1], v, cfg), "a %s key is typed as %s; expected %s" % (v, got, want[v]), where=cb.where(), fn=cb.key, nontrivial=True,
+            for conds, val, pth in cases:
+                o, k = outcome(val)
+                kinds.add(o)
+                if o == "OK(Number)" and expr_mentions(k, lambda y: y[0] == "call" and y[1] is not None and y[1]["path"] == "serde_json::Number::as_i64"):
+                    kinds.add("via as_i64")
+                elif o == "OK(Number)" and any("serde_json::Number::as_i64" in str(ck) or "as_i64(" in str(ck) for ck in conds) and expr_mentions(k, lambda y: y[0] == "payload"):
+                    kinds.add("via as_i64")
+            got = "+".join(sorted(kinds))
+            m[v] = got
+            if "?" in kinds and all(x2 in want[v].split("+") or x2 == "?" for x2 in kinds):
+                ctx.unread(K + ".key-typing", key, "one outcome of the conversion for a %s could not be read as Ok(key kind) or Err" % v, where=cb.where(), fn=cb.key)
+                continue
+            ctx.check(got == want[v], K + ".key-typing", key, "a %s key is typed as %s; expected %s" % (v, got, want[v]), where=cb.where(), fn=cb.key, nontrivial=True,
                       sample={"conversion": cb.key, "kind": v, "outcome": got})
-    if len(mats) >= 2:
+        mats.append((cb, m))
+    if len(mats) >= 2 and all(None not in m.values() for _, m in mats):
         ctx.check(all(m == mats[0][1] for _, m in mats), K + ".key-siblings", "both KeyType conversions agree (%s)" % cfg, "the conversions from Value and &Value type keys differently", where=convs[0].where(), nontrivial=True)
-
 
 
 def run(ctx):
@@ -102,7 +175,8 @@ def run(ctx):
         roles = Roles(facts)
         p = P.Prov(roles).run()
         lookup = lookup_role(roles)
-        key_adt = lookup.locals[2]["adt"]
+        key_adt = lookup_key_adt(lookup)
+        di, ki = lookup.data_param - 1, lookup.key_param - 1
         # K2 (first half): only a JSON null is a null key — the gate the skipping below is keyed on
         key_typing(ctx, facts, roles, key_adt, cfg, "K2")
         units = {}
@@ -119,9 +193,9 @@ def run(ctx):
             lk = u.calls_to(lookup.key)
             ctx.check(len(lk) >= 1, "K1.shared-lookup", "%s uses the shared lookup (%s)" % (name, cfg), "%s never calls the shared lookup %s" % (name, lookup.key.split("::", 1)[1]), where=root.where(), fn=root.key, nontrivial=True)
             for s in lk:
-                dt = p.op_tags(s.body, s.term["args"][0])
+                dt = p.op_tags(s.body, s.term["args"][di])
                 ctx.check(dt == {"DATA"}, "K1.lookup-on-data", "%s looks keys up in the data (%s, %s)" % (name, s.where(), cfg), "lookup applied to a value with provenance %s" % sorted(dt), where=s.where(), fn=s.body.key)
-                kx = strip_payload(s.body.xtrace(s.term["args"][1]))
+                kx = strip_payload(s.body.xtrace(s.term["args"][ki]))
                 via_gate = kx[0] == "call" and kx[1] and kx[1]["path"] in ("<T as std::convert::TryInto<U>>::try_into",) or (kx[0] == "call" and kx[1] and "TryFrom" in kx[1]["path"])
                 ctx.check(bool(via_gate), "K1.key-gate", "%s converts keys through the KeyType gate (%s, %s)" % (name, s.where(), cfg), "the key handed to the lookup is %s" % show_expr(kx)[:120], where=s.where(), fn=s.body.key)
             for b in u.bodies:
@@ -147,93 +221,24 @@ def run(ctx):
                             ctx.fail("K1.data-switch", "%s|switch on data kind" % name, "%s branches on the kind of the data itself instead of delegating to the shared lookup" % name, where=b.where(bi, si), fn=b.key)
             ctx.count("data uses in %s (%s)" % (name, cfg), nuse)
 
-        # ---------------- per-key closures of missing / missing_some
+        # ---------------- the per-key step, the count, the threshold and the key list: read on the view of the program
+        # in which the private helpers/methods of the two operators (never the shared lookup) stand at their call sites
+        vfacts, vroles, inlined = flat_view(ctx, cfg, facts, roles, lookup)
+        vlookup = lookup_role(vroles)
+        stop = [vlookup.key] + [k for k in vfacts.bodies if "::js_op::" in k]
+        if inlined:
+            ctx.count("helpers read at their call sites (%s)" % cfg, len(inlined))
         for name in ("missing", "missing_some"):
-            u = units[name]
-            root = u.root
-            lk = u.calls_to(lookup.key)
-            if not lk:
-                continue
-            s = lk[0]
-            clos = s.body
-            ctx.check(u.per_element(s) is not None, "K3.per-key", "%s looks each key up in per-key code (%s)" % (name, cfg), "the lookup is not in per-key code (loop body or closure handed to an iterator consumer)", where=s.where(), fn=clos.key)
-            # found / not-found edges of the lookup result
-            edges = absence_edges(clos, s.bi)
-            ctx.check(edges is not None, "K1.absence-test", "%s tests absence by the lookup's Option discriminant (%s)" % (name, cfg), "no is_none/is_some/discriminant test of the lookup result", where=s.where(), fn=clos.key, nontrivial=True)
-            if edges is None:
-                continue
-            sb, absent_tgt, present_tgt = edges
-            pushes = [x for x in u.calls_path(r"^std::vec::Vec::<T, A>::push$") if x.body.key == clos.key]
-            ctx.check(len(pushes) >= 1, "K4.push", "%s appends missing keys (%s)" % (name, cfg), "no push onto the missing list", where=clos.where(), fn=clos.key)
-            for x in pushes:
-                ctx.check(edge_dominates(clos, sb, absent_tgt, x.bi), "K3.push-absent", "%s: push only when the key was not found (%s)" % (name, cfg),
-                          "a key is reported missing on a path where its lookup did not return None", where=x.where(), fn=clos.key, nontrivial=True)
-                v = strip_refs(clos.xtrace(x.term["args"][1]))
-                elem = v[0] == "call" and v[1] and v[1]["path"] == CLONE and is_key_param(clos, strip_refs(v[2][0]))
-                ctx.check(bool(elem), "K4.push-key", "%s pushes a clone of the key operand itself (%s)" % (name, cfg), "%s pushes %s" % (name, show_expr(v)[:100]), where=x.where(), fn=clos.key, nontrivial=True)
-                if name == "missing_some":
-                    guarded = False
-                    for cb in clos.reachable():
-                        tt = clos.blocks[cb]["term"]
-                        if tt["k"] == "SwitchInt":
-                            e = strip_refs(clos.trace(tt["discr"]))
-                            if e[0] == "call" and e[1] and e[1]["path"].endswith("::contains") and edge_dominates(clos, cb, bool_edge(clos, cb, False), x.bi):
-                                guarded = True
-                    ctx.check(guarded, "K4.distinct", "missing_some reports each missing key once (%s)" % cfg, "the push is not guarded by !contains(key)", where=x.where(), fn=clos.key, nontrivial=True)
-            # ---- K2 null keys
-            for v in facts.variants(key_adt):
-                def assume(e, adt, _v=v):
-                    if adt == key_adt:
-                        return _v
-                    return None
-                blocks, dec = clos.specialize(assume)
-                if v == "Null":
-                    has_push = any(x.bi in blocks for x in pushes)
-                    has_lookup = s.bi in blocks
-                    incs = [bi for bi in blocks if clos.blocks[bi]["term"]["k"] == "Assert" and clos.blocks[bi]["term"]["msg"] == "Overflow"]
-                    ctx.check(not has_push and not has_lookup and not incs, "K2.null-skipped", "%s: a null key is neither looked up, reported nor counted (%s)" % (name, cfg),
-                              "under KeyType::Null: push=%s lookup=%s count-increment=%s" % (has_push, has_lookup, bool(incs)), where=clos.where(), fn=clos.key, nontrivial=True)
-                else:
-                    ctx.check(s.bi in blocks, "K2.other-keys-looked-up", "%s: a %s key is looked up (%s)" % (name, v, cfg), "a %s key is not looked up" % v, where=clos.where(), fn=clos.key)
-            # ---- K3 counter (missing_some)
+            b, e = vroles.fn_of(name)
+            u = Unit(vroles, b.key, extended=True, stop=stop)
+            if not u.calls_to(vlookup.key):
+                continue      # K1.shared-lookup has reported it
+            count = None
             if name == "missing_some":
-                counter(ctx, facts, roles, u, clos, sb, absent_tgt, present_tgt, cfg)
-
-        # ---------------- K5 first-operand-array adjustment
-        u = units["missing"]
-        root = u.root
-        base = 1 if root.kind == "closure" else 0
-        argsp = base + 2
-        adj = None
-        for bi in root.reachable():
-            tt = root.blocks[bi]["term"]
-            if tt["k"] == "SwitchInt":
-                e = root.trace(tt["discr"])
-                if e[0] == "discr" and e[2] == VALUE:
-                    x = strip_refs(e[1])
-                    if x[0] == "call" and x[1] and x[1]["path"].endswith("Index<I>>::index") and strip_refs(x[2][0]) == ("arg", argsp):
-                        i = strip_refs(x[2][1])
-                        if i[0] == "const" and const_value(i[1]) == 0:
-                            adj = bi
-        ctx.check(adj is not None, "K5.adjustment", "missing switches on the kind of operand 0 (%s)" % cfg, "no switch on operand 0's kind", where=root.where(), fn=root.key, nontrivial=True)
-        if adj is not None:
-            arr = switch_edges_for_variant(root, adj, "Array")
-            ok = False
-            if arr and arr[1]:
-                # on the Array edge the iterated list derives from the array payload; elsewhere from the operand list
-                region = root.reachable(arr[0])
-                with root.restricted(region | root.reachable(0) - root.reachable(adj) | {adj}):
-                    pass
-                for bi, si, st in root.stmts():
-                    if bi in region and st["k"] == "Assign" and edge_dominates(root, adj, arr[0], bi):
-                        ex = root.trace(st["place"]["local"]) if not st["place"]["proj"] else None
-                        if ex is not None and expr_mentions(root._trace_def(("stmt", bi, si, st["rv"], False), 0, frozenset()), lambda x: x[0] == "downcast" and x[2] == "Array"):
-                            ok = True
-                for bi, t in root.calls():
-                    if edge_dominates(root, adj, arr[0], bi) and (callee_path(t) or "").endswith("::collect"):
-                        if expr_mentions(root.trace(t["args"][0]), lambda x: x[0] == "downcast" and x[2] == "Array"):
-                            ok = True
-            ctx.check(ok, "K5.array-elements", "an array as first operand supplies the key list (%s)" % cfg, "the Array edge does not take the key list from the array's elements", where=root.where(adj), fn=root.key, nontrivial=True)
+                count = threshold_and_outcome(ctx, vfacts, u, cfg)
+            per_key(ctx, name, cfg, vfacts, u, vlookup, key_adt, count)
+        b, e = vroles.fn_of("missing")
+        key_list(ctx, vfacts, Unit(vroles, b.key, extended=True, stop=stop), vlookup, cfg)
 
 
 def is_key_param(clos, e):
@@ -254,80 +259,598 @@ def absence_edges(clos, lookup_bi):
     return sb, t_none, t_some
 
 
-def counter(ctx, facts, roles, u, clos, sb, absent_tgt, present_tgt, cfg):
-    root = u.root
-    # threshold comparison in the root
-    cmp_site = None
-    for bi in root.reachable():
-        tt = root.blocks[bi]["term"]
-        if tt["k"] != "SwitchInt" or tt.get("dty") != "bool":
-            continue
-        e = strip_refs(root.trace(tt["discr"]))
-        if e[0] == "binop" and e[1] in ("Ge", "Le", "Gt", "Lt") and e[4] in ("u64", "usize", "i64"):
-            cmp_site = (bi, e)
-    ctx.check(cmp_site is not None, "K6.threshold-test", "missing_some compares the present count with the threshold (%s)" % cfg, "no integer comparison deciding the result", where=root.where(), fn=root.key, nontrivial=True)
-    if cmp_site is None:
-        return
-    bi, e = cmp_site
-    a, b = strip_payload(e[2]), strip_payload(e[3])
 
-    def is_fold(x):
-        return x[0] == "call" and x[1] and re.search(r"Iterator(>)?::(fold|try_fold)$", x[1]["path"]) is not None
 
-    def is_threshold(x):
-        return expr_mentions(x, lambda y: y[0] == "call" and y[1] and y[1]["path"] == "serde_json::Number::as_u64")
+# ======================================================================================================================
+# Shape-independent readings (DESIGN §2 E2b).  Everything below is read on `flat_view`: the program with the private
+# helpers and methods of missing / missing_some standing at their call sites, so that "the per-key step" is one piece of
+# loop-free code whether it is written as a fold closure, a loop body, a helper returning an enum or methods of a struct.
 
-    op = e[1]
-    if is_fold(b) and is_threshold(a):
-        a, b = b, a
-        op = {"Ge": "Le", "Le": "Ge", "Gt": "Lt", "Lt": "Gt"}[op]
-    def is_counter_local(x):
-        # loop form: a local defined only by the constant 0 and by itself + 1
-        if x[0] != "phi":
+def flat_view(ctx, cfg, facts, roles, lookup):
+    from . import inline
+    try:
+        path = ctx.fact_paths[(cfg, "jsonlogic_rs", "debug")]
+        cands = set(inline.candidates(path))
+        stop = [lookup.key] + [k for k in facts.bodies if "::js_op::" in k]
+        helpers = set()
+        for name in ("missing", "missing_some"):
+            b, e = roles.fn_of(name)
+            for x in Unit(roles, b.key, extended=True, stop=stop).bodies:
+                if x.kind == "fn" and x.key != b.key and x.key in cands:
+                    helpers.add(x.key)
+        if not helpers:
+            return facts, roles, []
+        view = inline.load_view(path, sorted(helpers | set(h for h in ctx.inline_set if h.startswith("jsonlogic_rs::"))))
+        vroles = Roles(view)
+        lookup_role(vroles)
+        for name in ("missing", "missing_some"):
+            vroles.fn_of(name)
+        return view, vroles, sorted(helpers)
+    except Exception:
+        return facts, roles, []
+
+
+class Tally:
+    """Per clause: the first violation, the first unread instance, the number of satisfied instances."""
+
+    def __init__(self):
+        self.bad, self.unread, self.good = {}, {}, {}
+
+    def fail(self, clause, detail, where):
+        self.bad.setdefault(clause, (detail, where))
+
+    def skip(self, clause, detail, where):
+        self.unread.setdefault(clause, (detail, where))
+
+    def ok(self, clause):
+        self.good[clause] = self.good.get(clause, 0) + 1
+
+    def report(self, ctx, clause, key, fn, need=True):
+        if clause in self.bad:
+            ctx.fail(clause, key, self.bad[clause][0], where=self.bad[clause][1], fn=fn)
+        elif clause in self.unread:
+            ctx.unread(clause, key, self.unread[clause][0], where=self.unread[clause][1], fn=fn)
+        elif self.good.get(clause) or not need:
+            ctx.ok(clause, key, nontrivial=True, sample={"paths": self.good.get(clause, 0)})
+        else:
             return False
-        ok = True
-        for d in x[2]:
-            d = strip_refs(d)
-            if d[0] == "const" and const_value(d[1]) == 0:
-                continue
-            if d[0] == "field" and d[1][0] in ("binop",) and d[1][1].startswith("Add"):
-                continue
-            if d[0] == "binop" and d[1].startswith("Add"):
-                continue
-            ok = False
-        return ok
+        return True
 
-    ctx.check(is_fold(a) or is_counter_local(a), "K3.count-by-fold", "the present count is the result of folding over the keys (%s)" % cfg,
-              "the value compared with the threshold is %s — not obtained by counting the lookups that succeeded" % show_expr(a)[:140], where=root.where(bi), fn=root.key, nontrivial=True)
-    ctx.check(is_threshold(b), "K6.threshold-operand", "the threshold is operand 0 as an unsigned integer (%s)" % cfg, "compared against %s" % show_expr(b)[:100], where=root.where(bi), fn=root.key)
-    ctx.check(op == "Ge", "K6.operator", "the test is present >= threshold (%s)" % cfg, "the test is present %s threshold" % op, where=root.where(bi), fn=root.key, nontrivial=True)
-    # outcomes
-    for truth, want in ((True, "empty"), (False, "missing list")):
-        tg = bool_edge(root, bi, truth)
-        other = bool_edge(root, bi, not truth)
-        region = root.reachable(tg) - root.reachable(other)
-        with root.restricted(region | {tg}):
-            r = strip_refs(root.trace(0))
-        kind = "?"
-        if r[0] == "agg" and r[1].get("variant") == "Ok":
-            v = strip_refs(r[2][0])
-            if v[0] == "agg" and v[1].get("adt") == VALUE and v[1].get("variant") == "Array":
-                inner = strip_refs(v[2][0])
-                if inner[0] == "call" and inner[1] and re.search(r"Vec::<T>::new$", inner[1]["path"]):
-                    kind = "empty"
+
+def _opaque(facts, lookup, conv_keys, c):
+    """A call whose effect on the carried state the path reader does not see: indirect, or a function of the crate."""
+    if c is None:
+        return True
+    k = c.get("key")
+    return k is not None and k in facts.bodies and k != lookup.key and k not in conv_keys
+
+
+def _conv_keys(facts, key_adt):
+    return {b.key for b in facts.fns() if facts.items.get(b.key, {}).get("output", "").startswith("std::result::Result<%s" % key_adt)}
+
+
+def _cmp_of(body, op):
+    """(bi, si, rvalue, negated): the ordering comparison whose result the operand holds."""
+    neg = False
+    for _ in range(12):
+        if op["k"] not in ("Copy", "Move") or op["place"]["proj"] or body.is_arg(op["place"]["local"]):
+            return None
+        ds = body.defs().get(op["place"]["local"], [])
+        if len(ds) != 1 or ds[0][0] != "stmt":
+            return None
+        rv = ds[0][3]
+        if rv["k"] == "BinaryOp" and rv["op"] in CMP_SWAP:
+            return ds[0][1], ds[0][2], rv, neg
+        if rv["k"] == "UnaryOp" and rv["op"] == "Not":
+            neg, op = not neg, rv["a"]
+        elif rv["k"] == "Use":
+            op = rv["op"]
+        else:
+            return None
+    return None
+
+
+def _mentions_call(e, pred):
+    return expr_mentions(e, lambda y: y[0] == "call" and y[1] is not None and pred(y[1]["path"]))
+
+
+def _is_fold(x):
+    return x[0] == "call" and x[1] and accum.FOLD.search(x[1]["path"]) is not None
+
+
+def threshold_and_outcome(ctx, facts, u, cfg):
+    """K6 and the source of the present count.  Returns how the count is carried: {"kind": "fold", "bi"} (the value
+    returned by the per-key closure) or {"kind": "cell", "cell"} (updated in place by the per-key step), or None."""
+    root = u.root
+    base = 1 if root.kind == "closure" else 0
+    argsp = base + 2
+    loops = PN.loops_of(root)
+    inloop = set()
+    for (_h, bl, _s) in loops:
+        inloop |= bl
+    sites = []
+    for bi in sorted(root.reachable()):
+        tt = root.blocks[bi]["term"]
+        if tt["k"] == "SwitchInt" and tt.get("dty") == "bool" and bi not in inloop:
+            c = _cmp_of(root, tt["discr"])
+            if c is not None and str(c[2].get("opty", "u64"))[:1] in ("u", "i"):
+                sites.append((bi, c))
+    K = "missing_some compares the present count with the threshold after the scan (%s)" % cfg
+    if not sites:
+        hidden = [bi for bi, t in root.calls() if callee_of(t) is None or (callee_of(t).get("key") in facts.bodies and "::{closure" not in callee_of(t)["key"] and facts.items.get(callee_of(t)["key"], {}).get("output") in ("bool", "serde_json::Value"))]
+        if hidden:
+            ctx.unread("K6.threshold-test", K, "the decision is made inside a function that is not read at its call site", where=root.where(hidden[0]), fn=root.key)
+        else:
+            ctx.fail("K6.threshold-test", K, "no comparison of the present count with the threshold decides the result once the keys have been scanned (the function's code was read completely)", where=root.where(), fn=root.key)
+        return None
+    ctx.ok("K6.threshold-test", K, nontrivial=True)
+    count = None
+    for n, (bi, (sbi, ssi, rv, neg)) in enumerate(sites):
+        tag = cfg if len(sites) == 1 else "%s, comparison %d" % (cfg, n + 1)
+        sides = []
+        for o in (rv["a"], rv["b"]):
+            e = root.trace(o)
+            cell = reads_cell(root, o)
+            kind = ("?", e)
+            if cell is not None:
+                ups = [w for w in cell_writes(root, cell) if len(w[3][1]) >= len(cell[1])]
+                init = initial_operand(root, cell) if cell[1] else None
+                if cell[1] and not ups and init is not None:
+                    e = root.trace(init)
+                elif any(w[0] in inloop for w in ups):
+                    kind = ("count", {"kind": "cell", "cell": cell, "body": root, "writes": ups, "init": init})
+            if kind[0] == "?":
+                if _is_fold(strip_payload(e)):
+                    kind = ("count", {"kind": "fold", "bi": strip_payload(e)[3], "body": root, "expr": strip_payload(e)})
+                elif _mentions_call(e, lambda p: p in U64_EXACT or U64_WRONG.search(p) is not None):
+                    kind = ("threshold", e)
                 else:
-                    kind = "missing list"
-        ctx.check(kind == want, "K6.outcome", "present >= threshold is %s ⇒ %s (%s)" % (truth, want, cfg), "when present >= threshold is %s the result is the %s" % (truth, kind), where=root.where(bi), fn=root.key, nontrivial=True)
-    # the fold closure: +1 only under the found edge
-    incs = []
-    for cb in clos.reachable():
-        for si, st in enumerate(clos.blocks[cb]["stmts"]):
-            if st["k"] == "Assign" and st["rv"]["k"] == "BinaryOp" and st["rv"]["op"] in ("Add", "AddWithOverflow", "AddUnchecked"):
-                incs.append((cb, si, st))
-    ctx.check(len(incs) >= 1, "K3.increment", "the per-key closure increments the count (%s)" % cfg, "no increment of the present count in the per-key closure", where=clos.where(), fn=clos.key, nontrivial=True)
-    for cb, si, st in incs:
-        one = strip_refs(clos.trace(st["rv"]["b"]))
-        ctx.check(one[0] == "const" and const_value(one[1]) == 1, "K3.increment-by-one", "the count grows by one per present key (%s)" % cfg, "increment by %s" % show_expr(one), where=clos.where(cb, si), fn=clos.key)
-        ctx.check(edge_dominates(clos, sb, present_tgt, cb), "K3.count-present-only", "the increment is dominated by the 'found' edge of the current key's lookup (%s)" % cfg,
-                  "the present count is incremented on a path where the current key's lookup returned None (an absent key counted as present)", where=clos.where(cb, si), fn=clos.key, nontrivial=True,
-                  sample={"increment_block": cb, "absence_switch": sb, "found_edge_target": present_tgt})
+                    kind = ("?", e)
+            sides.append(kind)
+        op = rv["op"]
+        if sides[0][0] == "threshold" or sides[1][0] == "count":
+            sides.reverse()
+            op = CMP_SWAP[op]
+        if neg:
+            op = CMP_NEG[op]
+        cnt, thr = sides
+        # -- the count
+        Kc = "the present count is obtained by counting over the keys (%s)" % tag
+        if cnt[0] == "count":
+            ctx.ok("K3.count-by-fold", Kc, nontrivial=True, sample={"carried": cnt[1]["kind"]})
+            count = cnt[1]
+            seed = None
+            if count["kind"] == "fold":
+                seed = accum.seed_value(count["expr"][2][1]) if len(count["expr"][2]) > 1 else None
+            else:
+                outside = [w for w in count["writes"] if w[0] not in inloop]
+                if count["init"] is not None and not outside:
+                    seed = accum.seed_value(root.trace(count["init"]))
+                elif len(outside) == 1 and outside[0][1] is not None and outside[0][2]["rv"]["k"] == "Use":
+                    seed = accum.seed_value(root.trace(outside[0][2]["rv"]["op"]))
+            if seed is None:
+                ctx.unread("K3.count-seed", "the count starts at zero (%s)" % tag, "the initial value of the count could not be read", where=root.where(bi), fn=root.key)
+            else:
+                ctx.check(seed == 0, "K3.count-seed", "the count starts at zero (%s)" % tag, "the count starts at %r" % (seed,), where=root.where(bi), fn=root.key, nontrivial=True)
+        elif _mentions_call(cnt[1], lambda p: p.endswith("::len")):
+            ctx.fail("K3.count-by-fold", Kc, "the value compared with the threshold is %s — computed from list lengths, not by counting the lookups that succeeded (null keys and repeated keys are counted wrongly)" % show_expr(cnt[1])[:140], where=root.where(bi), fn=root.key)
+        else:
+            ctx.unread("K3.count-by-fold", Kc, "the value compared with the threshold is %s — neither an accumulation over the keys nor a counter updated by the per-key step" % show_expr(cnt[1])[:140], where=root.where(bi), fn=root.key)
+        # -- the threshold
+        Kt = "the threshold is operand 0 as an unsigned integer (%s)" % tag
+        if thr[0] != "threshold":
+            ctx.unread("K6.threshold-operand", Kt, "compared against %s" % show_expr(thr[1])[:100], where=root.where(bi), fn=root.key)
+        else:
+            wrong = []
+            expr_mentions(thr[1], lambda y: wrong.append(y[1]["path"]) if (y[0] == "call" and y[1] is not None and U64_WRONG.search(y[1]["path"])) else False)
+            recv = []
+            expr_mentions(thr[1], lambda y: recv.append(y[2][0]) if (y[0] == "call" and y[1] is not None and y[1]["path"] in U64_EXACT and y[2]) else False)
+            if wrong:
+                ctx.fail("K6.threshold-operand", Kt, "the threshold is read with %s" % wrong[0], where=root.where(bi), fn=root.key)
+            else:
+                idx = None
+                for r in recv:
+                    x = strip_refs(r)
+                    while x[0] in ("field", "downcast"):
+                        x = strip_refs(x[1])
+                    d = operands.describe(root, x, argsp)
+                    if d.kind == "fixed" and d.view == ("all",):
+                        idx = d.index
+                ctx.check(idx in (None, 0), "K6.threshold-operand", Kt, "the threshold is read from operand %r" % (idx,), where=root.where(bi), fn=root.key, nontrivial=idx == 0)
+        # -- operator and outcomes
+        Ko = "the test is present >= threshold (%s)" % tag
+        if cnt[0] != "count" or thr[0] != "threshold":
+            ctx.unread("K6.operator", Ko, "the operands of the comparison were not identified", where=root.where(bi), fn=root.key)
+            continue
+        ctx.check(op in ("Ge", "Lt"), "K6.operator", Ko, "the test is present %s threshold" % {"Gt": ">", "Le": "<="}.get(op, op), where=root.where(bi), fn=root.key, nontrivial=True)
+        if op not in ("Ge", "Lt"):
+            continue
+        # `op` now reads "the switch is taken as true exactly when count `op` threshold"
+        met_tg, not_tg = (bool_edge(root, bi, True), bool_edge(root, bi, False)) if op == "Ge" else (bool_edge(root, bi, False), bool_edge(root, bi, True))
+        for tg, other, truth, want in ((met_tg, not_tg, True, "empty"), (not_tg, met_tg, False, "missing list")):
+            # the value returned on every path that leaves the comparison by this edge (the code after the scan is loop-free)
+            wk = pathsum.Walker(root, start=tg, max_paths=400)
+            kinds, r = set(), ("?",)
+            for pp in wk.paths:
+                if pp.truncated or pp.result is None:
+                    kinds.add("?")
+                    continue
+                r = strip_refs(pp.result)
+                if r[0] == "agg" and r[1].get("variant") == "Ok" and r[2]:
+                    r = strip_refs(r[2][0])
+                if r[0] == "agg" and r[1].get("adt") == VALUE and r[1].get("variant") == "Array":
+                    inner = strip_refs(r[2][0])
+                    # a vector created after the decision is empty; one created before it is the list the scan filled
+                    fresh = inner[0] == "call" and inner[1] and re.search(r"::new$", inner[1]["path"]) and isinstance(inner[3], int) and inner[3] in pp.blocks
+                    kinds.add("empty" if fresh else "missing list")
+                else:
+                    kinds.add("?")
+            kind = kinds.pop() if (len(kinds) == 1 and not wk.overflow) else "?"
+            Kr = "present >= threshold is %s ⇒ %s (%s)" % (truth, want, tag)
+            if kind == "?":
+                ctx.unread("K6.outcome", Kr, "the value returned on this edge is %s" % show_expr(r)[:100], where=root.where(bi), fn=root.key)
+            else:
+                ctx.check(kind == want, "K6.outcome", Kr, "when present >= threshold is %s the result is the %s" % (truth, kind), where=root.where(bi), fn=root.key, nontrivial=True)
+    return count
+
+
+def per_key(ctx, name, cfg, facts, u, lookup, key_adt, count):
+    """K2/K3/K4: the decision table of one per-key step — key kind × lookup result → (reported?, counted?)."""
+    conv = _conv_keys(facts, key_adt)
+    lk = u.calls_to(lookup.key)
+    for idx, s in enumerate(lk):
+        B = s.body
+        tag = cfg if len(lk) == 1 else "%s, scan %d" % (cfg, idx + 1)
+        pe = u.per_element(s)
+        ctx.check(pe is not None, "K3.per-key", "%s looks each key up in per-key code (%s)" % (name, tag), "the lookup is not in per-key code (loop body or closure handed to an iterator consumer)", where=s.where(), fn=B.key)
+        if pe is None:
+            continue
+        loops = [(h, bl) for (h, bl, _s) in PN.loops_of(B) if s.bi in bl]
+        if loops:
+            start, region = min(loops, key=lambda x: len(x[1]))
+            form = "loop"
+        elif B.kind == "closure":
+            start, region, form = 0, set(range(len(B.blocks))), "closure"
+        else:
+            ctx.unread("K3.per-key", "%s: the per-key step (%s)" % (name, tag), "the lookup sits in a function that is called from per-key code and is not read at its call site", where=s.where(), fn=B.key)
+            continue
+        acc = ("arg", 2) if (form == "closure" and B.arg_count == 3) else None
+        last = ("arg", B.arg_count)
+
+        def is_elem(e):
+            x = strip_refs(e)
+            if form == "closure":
+                return x == last
+            x = strip_payload(x)
+            return x[0] == "call" and x[1] is not None and x[1]["path"].endswith("::next") and x[3] in region
+
+        def is_lookup(x):
+            x = strip_refs(x)
+            while x[0] == "call" and x[1] and re.search(r"Option::<T>::(as_ref|as_deref|as_mut)$", x[1]["path"]) and x[2]:
+                x = strip_refs(x[2][0])
+            return x[0] == "call" and x[1] is not None and x[1].get("key") == lookup.key
+
+        T = Tally()
+        looked = {}
+        any_push = any_inc = any_opaque = False
+        for v in facts.variants(key_adt):
+            w = StepWalker(B, start, region, known=lambda pe_, adt, _v=v: _v if adt == key_adt else None)
+            if w.overflow or not w.paths:
+                T.skip("K2.null-skipped" if v == "Null" else "K2.other-keys-looked-up", "the per-key step has too many paths to enumerate" if w.overflow else "no path through the per-key step", B.where(start))
+                continue
+            for p in w.paths:
+                where = B.where(p.blocks[-1] if not p.truncated else p.blocks[-2] if len(p.blocks) > 1 else start)
+                look = [ev for ev in p.events if ev[1] is not None and ev[1].get("key") == lookup.key]
+                pushes = [ev for ev in p.events if ev[1] is not None and ev[1]["path"] == PUSH]
+                opaque = [ev for ev in p.events if _opaque(facts, lookup, conv, ev[1])]
+                any_opaque = any_opaque or bool(opaque)
+                # what the path knows about the lookup result, and the other decisions it takes about the current key
+                outcome, guards, foreign = None, [], []
+                for key, val in p.order:
+                    x = w.exprs.get(key)
+                    if x is None:
+                        continue
+                    if key[0] == "variant" and is_lookup(x):
+                        outcome = {"Some": "found", "None": "absent"}.get(val, "other")
+                    elif key[0] == "pure" and x[0] == "call" and x[1] and re.search(r"Option::<T>::is_(none|some)$", x[1]["path"]) and x[2] and is_lookup(x[2][0]):
+                        outcome = "absent" if (x[1]["path"].endswith("is_none") == bool(val)) else "found"
+                    elif expr_mentions(x, lambda y: y[0] == "call" and y[1] is not None and y[1].get("key") == lookup.key):
+                        outcome = "other"
+                    elif key[0] == "pure" and x[0] == "call" and x[1] and x[1]["path"].endswith("::contains") and len(x[2]) == 2:
+                        guards.append((x, val))
+                    elif key[0] in ("pure", "site", "expr") and expr_mentions(x, is_elem):
+                        foreign.append(x)
+                # the count
+                delta = None
+                if name == "missing_some" and count is not None:
+                    if count["kind"] == "fold" and form == "closure" and not p.truncated:
+                        delta = _fold_delta(p, acc)
+                    elif count["kind"] == "cell" and form == "loop" and B.key == count["body"].key:
+                        delta = _cell_delta(B, p, count["cell"])
+                done = (form == "closure" and not p.truncated and delta != "err") or (form == "loop" and w.next_element(p))
+                if form == "closure" and name == "missing" and not p.truncated:
+                    r = strip_refs(p.result) if p.result is not None else ("?",)
+                    if (r[0] == "call" and r[1] and "from_residual" in r[1]["path"]) or (r[0] == "agg" and r[1].get("variant") == "Err"):
+                        done = False
+                if look:
+                    looked[v] = True
+                # ---- K2: a null key takes no part
+                if v == "Null":
+                    if look or pushes or (isinstance(delta, int) and delta != 0):
+                        T.fail("K2.null-skipped", "under KeyType::Null: push=%s lookup=%s count-increment=%s" % (bool(pushes), bool(look), isinstance(delta, int) and delta != 0), where)
+                    elif opaque or (name == "missing_some" and done and delta is None):
+                        T.skip("K2.null-skipped", "under KeyType::Null the step calls %s, whose effect is not read" % (opaque[0][1]["path"] if opaque and opaque[0][1] else "a function value") if opaque else "under KeyType::Null the effect of the step on the count could not be read", where)
+                    else:
+                        T.ok("K2.null-skipped")
+                    continue
+                # ---- K3/K4: pushes
+                for ev in pushes:
+                    any_push = True
+                    if outcome == "absent":
+                        T.ok("K3.push-absent")
+                    elif outcome == "other":
+                        T.skip("K3.push-absent", "the test made on the lookup result before this push is not one of None/Some/is_none/is_some", where)
+                    else:
+                        T.fail("K3.push-absent", "a key is reported missing on a path where its lookup %s" % ("returned a value" if outcome == "found" else "was not consulted"), where)
+                    val = strip_refs(ev[2][1]) if len(ev[2]) > 1 else ("?",)
+                    if val[0] == "call" and val[1] is not None and val[1]["path"] in COPY_OF and val[2] and is_elem(val[2][0]):
+                        T.ok("K4.push-key")
+                    elif val[0] == "call" and val[2] and len(val[2]) == 1 and is_elem(val[2][0]):
+                        T.skip("K4.push-key", "%s pushes %s" % (name, show_expr(val)[:100]), where)
+                    else:
+                        T.fail("K4.push-key", "%s pushes %s" % (name, show_expr(val)[:100]), where)
+                    if name == "missing_some":
+                        lst = pathsum.canon(strip_refs(ev[2][0]))
+                        mine = [(x, gv) for (x, gv) in guards if is_elem(x[2][1])]
+                        if any(gv is False and pathsum.canon(strip_refs(x[2][0])) == lst for (x, gv) in mine):
+                            T.ok("K4.distinct")
+                        elif mine and all(gv is False for (x, gv) in mine):
+                            T.skip("K4.distinct", "the push is guarded by !contains(key) on %s, which could not be identified with the list pushed to" % show_expr(mine[0][0][2][0])[:80], where)
+                        elif foreign:
+                            T.skip("K4.distinct", "the push is guarded by %s, which is not read" % show_expr(foreign[0])[:100], where)
+                        else:
+                            T.fail("K4.distinct", "the push is not guarded by !contains(key)", where)
+                # ---- K3: the count
+                if name == "missing_some":
+                    if isinstance(delta, int) and delta != 0:
+                        any_inc = True
+                        if delta == 1:
+                            T.ok("K3.increment-by-one")
+                        else:
+                            T.fail("K3.increment-by-one", "increment by %s" % delta, where)
+                        if outcome == "found":
+                            T.ok("K3.count-present-only")
+                        elif outcome == "other":
+                            T.skip("K3.count-present-only", "the test made on the lookup result before this increment is not one of None/Some/is_none/is_some", where)
+                        else:
+                            T.fail("K3.count-present-only", "the present count is incremented on a path where the current key's lookup %s (an absent key counted as present)" % ("returned None" if outcome == "absent" else "was not consulted"), where)
+                    elif done and delta is None and count is not None:
+                        T.skip("K3.count-present-only", "the effect of this path on the count could not be read", where)
+                    elif done and delta == 0 and outcome == "found" and not opaque:
+                        T.fail("K3.present-counted", "a key whose lookup returned a value leaves the step without being counted", where)
+                    elif done and delta == 0 and outcome == "found":
+                        T.skip("K3.present-counted", "a found key is handed to %s" % (opaque[0][1]["path"] if opaque[0][1] else "a function value"), where)
+                    elif done and outcome == "found":
+                        T.ok("K3.present-counted")
+                # ---- a key that was not found is reported (or is already in the list)
+                if done and outcome == "absent":
+                    if pushes or any(gv is True for (_x, gv) in guards):
+                        T.ok("K3.absent-reported")
+                    elif opaque or foreign:
+                        T.skip("K3.absent-reported", "on the not-found path the step calls code that is not read", where)
+                    else:
+                        T.fail("K3.absent-reported", "a key whose lookup returned None leaves the step without being reported", where)
+        fn = B.key
+        for v in facts.variants(key_adt):
+            if v != "Null":
+                ctx.check(bool(looked.get(v)), "K2.other-keys-looked-up", "%s: a %s key is looked up (%s)" % (name, v, tag), "a %s key is not looked up" % v, where=B.where(start), fn=fn)
+        T.report(ctx, "K2.null-skipped", "%s: a null key is neither looked up, reported nor counted (%s)" % (name, tag), fn)
+        if not any_push and not T.bad.get("K3.push-absent"):
+            if any_opaque:
+                ctx.unread("K4.push", "%s appends missing keys (%s)" % (name, tag), "no push onto the missing list in the per-key step; it calls functions that are not read at their call sites", where=B.where(start), fn=fn)
+            else:
+                ctx.fail("K4.push", "%s appends missing keys (%s)" % (name, tag), "no push onto the missing list", where=B.where(start), fn=fn)
+        else:
+            ctx.ok("K4.push", "%s appends missing keys (%s)" % (name, tag))
+            T.report(ctx, "K3.push-absent", "%s: push only when the key was not found (%s)" % (name, tag), fn)
+            T.report(ctx, "K4.push-key", "%s pushes a clone of the key operand itself (%s)" % (name, tag), fn)
+            if name == "missing_some":
+                T.report(ctx, "K4.distinct", "missing_some reports each missing key once (%s)" % tag, fn)
+        T.report(ctx, "K3.absent-reported", "%s: a key that is not found is reported (%s)" % (name, tag), fn, need=False)
+        if name == "missing_some":
+            if count is None:
+                ctx.unread("K3.increment", "the per-key step increments the count (%s)" % tag, "how the present count is carried was not identified", where=B.where(start), fn=fn)
+                continue
+            if not any_inc and "K3.count-present-only" not in T.unread:
+                if any_opaque:
+                    ctx.unread("K3.increment", "the per-key step increments the count (%s)" % tag, "no increment in the per-key step; it calls functions that are not read at their call sites", where=B.where(start), fn=fn)
+                else:
+                    ctx.fail("K3.increment", "the per-key step increments the count (%s)" % tag, "no increment of the present count in the per-key step", where=B.where(start), fn=fn)
+            elif any_inc:
+                ctx.ok("K3.increment", "the per-key step increments the count (%s)" % tag, nontrivial=True)
+            T.report(ctx, "K3.increment-by-one", "the count grows by one per present key (%s)" % tag, fn, need=False)
+            T.report(ctx, "K3.count-present-only", "the count grows only on the 'found' result of the current key's lookup (%s)" % tag, fn, need=False)
+            T.report(ctx, "K3.present-counted", "every key that is found is counted (%s)" % tag, fn, need=False)
+
+
+def _fold_delta(p, acc):
+    """What the closure returns relative to the accumulator it was given: 0, a constant increment, "err", or None."""
+    if p.result is None:
+        return None
+    r = strip_refs(p.result)
+    if (r[0] == "call" and r[1] and "from_residual" in r[1]["path"]) or (r[0] == "agg" and r[1].get("variant") == "Err"):
+        return "err"
+    if r[0] == "agg" and r[1].get("variant") == "Ok" and r[2]:
+        r = strip_refs(r[2][0])
+    if acc is None:
+        return None
+    if strip_payload(r) == acc:
+        return 0
+    x = r
+    if x[0] == "field" and x[2] == 0:
+        x = strip_refs(x[1])
+    if x[0] == "binop" and x[1] in ("Add", "AddWithOverflow", "AddUnchecked"):
+        a, b = strip_payload(x[2]), strip_refs(x[3])
+        if a == acc and b[0] == "const" and isinstance(const_value(b[1]), int):
+            return const_value(b[1])
+    return None
+
+
+def _cell_delta(B, p, cell):
+    """Sum of the constant increments the path applies to the cell; None if it stores anything else into it."""
+    d = 0
+    blocks = p.blocks[:-1] if p.truncated else p.blocks
+    for bi in blocks:
+        for st in B.blocks[bi]["stmts"]:
+            if st["k"] != "Assign":
+                continue
+            c = cell_of(B, st["place"])
+            if c is None or not overlaps(c, cell):
+                continue
+            inc = _increment(B, st["rv"], cell)
+            if inc is None:
+                return None
+            d += inc
+        t = B.blocks[bi]["term"]
+        if t["k"] == "Call" and t.get("dest") is not None:
+            c = cell_of(B, t["dest"])
+            if c is not None and overlaps(c, cell):
+                return None
+    return d
+
+
+def _increment(B, rv, cell):
+    if rv["k"] == "Use" and rv["op"]["k"] in ("Copy", "Move") and [pr["k"] for pr in rv["op"]["place"]["proj"]] == ["Field"] and rv["op"]["place"]["proj"][0]["i"] == 0:
+        ds = B.defs().get(rv["op"]["place"]["local"], [])
+        if len(ds) == 1 and ds[0][0] == "stmt":
+            rv = ds[0][3]
+    if rv["k"] == "BinaryOp" and rv["op"] in ("Add", "AddWithOverflow", "AddUnchecked"):
+        c = op_const(rv["b"])
+        if reads_cell(B, rv["a"]) == cell and c is not None and isinstance(const_value(c), int):
+            return const_value(c)
+    return None
+
+
+def key_list(ctx, facts, u, lookup, cfg):
+    """K5: which sequence the keys are taken from — operand 0's elements exactly when operand 0 is an array, the
+    operand list otherwise.  Read off the paths of `missing` up to where the scan over the keys starts."""
+    root = u.root
+    base = 1 if root.kind == "closure" else 0
+    argsp = base + 2
+    lk = u.calls_to(lookup.key)
+    if not lk:
+        return      # K1.shared-lookup has reported it
+    step_closures = set()
+    headers = {}
+    for s in lk:
+        B = s.body
+        if B.key == root.key:
+            loops = [(h, bl) for (h, bl, _s) in PN.loops_of(root) if s.bi in bl]
+            if loops:
+                h, bl = min(loops, key=lambda x: len(x[1]))
+                headers[h] = bl
+        else:
+            k = B.key
+            while facts.body(k) is not None and facts.body(k).kind == "closure" and facts.body(k).creator() and facts.body(k).creator()[0].key != root.key:
+                k = facts.body(k).creator()[0].key
+            step_closures.add(k)
+    Ka = "missing takes the key list from operand 0's elements when it is an array (%s)" % cfg
+    Ke = "the operand list is the key list only when operand 0 is not an array (%s)" % cfg
+    region = set(range(len(root.blocks)))
+    for h, bl in headers.items():
+        region -= (bl - {h})
+    w = StepWalker(root, 0, region)
+    scans = []      # (path, source expression)
+    for p in w.paths:
+        for ev in p.events:
+            c = ev[1]
+            if c is None or not ev[2]:
+                continue
+            if c["path"].endswith("::next") and ev[3] in headers:
+                scans.append((p, ev[2][0], ev[3]))
+            elif any(strip_refs(a)[0] == "agg" and strip_refs(a)[1].get("closure") in step_closures for a in ev[2][1:]):
+                scans.append((p, ev[2][0], ev[3]))
+    if w.overflow or not scans:
+        ctx.unread("K5.adjustment", Ka, "the scan over the keys was not found on the paths of the operator function", where=root.where(), fn=root.key)
+        return
+    T = Tally()
+
+    def operand0(x):
+        d = operands.describe(root, x, argsp)
+        if d.kind == "fixed" and d.view == ("all",):
+            return d.index
+        if d.kind == "elem":
+            return "any"
+        return None
+
+    for p, src, bi in scans:
+        where = root.where(bi)
+        arr = []
+        expr_mentions(src, lambda y: arr.append(y[1]) if (y[0] == "downcast" and y[2] == "Array") else False)
+        # what the path knows about operand 0
+        zero_kind, empty, unknown = None, False, []
+        for key, val in p.order:
+            x = w.exprs.get(key)
+            if x is None:
+                continue
+            if key[0] == "variant":
+                i = operand0(x)
+                if i == 0:
+                    zero_kind = val
+                    continue
+                xs = strip_refs(x)
+                if xs[0] == "call" and xs[1] and re.search(r"::(first|get|split_first)$", xs[1]["path"]) and operands.view_of(xs[2][0], argsp) == ("all",):
+                    if val == "None":
+                        empty = True
+                    continue
+            if key[0] == "cmp" and "len(" in (key[2] + key[3]) and ("c:0" in (key[2], key[3])):
+                if (key[1] == "Lt" and key[2] == "c:0" and val is False) or (key[1] == "Eq" and val is True):
+                    empty = True
+                continue
+            if expr_mentions(x, lambda y: y == ("arg", argsp)):
+                unknown.append(x)
+        if arr:
+            i = operand0(arr[0])
+            if i == 0:
+                T.ok("K5.adjustment")
+            elif i is None:
+                T.skip("K5.adjustment", "the key list is taken from the elements of %s" % show_expr(arr[0])[:80], where)
+            else:
+                T.fail("K5.adjustment", "the key list is taken from the elements of operand %s" % i, where)
+            continue
+        v = operands.view_of(src, argsp)
+        if v == ("all",):
+            not_array = zero_kind is not None and zero_kind != "Array" and not (isinstance(zero_kind, tuple) and "Array" not in zero_kind[1])
+            if zero_kind == "Array":
+                T.fail("K5.array-elements", "the operand list itself is scanned on a path where operand 0 is an array", where)
+            elif not_array or empty:
+                T.ok("K5.array-elements")
+            elif unknown:
+                T.skip("K5.array-elements", "the operand list is scanned under the condition %s, which is not read" % show_expr(unknown[0])[:100], where)
+            else:
+                T.fail("K5.array-elements", "the operand list is scanned as the key list on a path that does not examine the kind of operand 0", where)
+        else:
+            T.skip("K5.array-elements", "the scan runs over %s" % show_expr(src)[:100], where)
+    if not T.good.get("K5.adjustment") and "K5.adjustment" not in T.bad and "K5.adjustment" not in T.unread:
+        if T.unread:
+            T.skip("K5.adjustment", "no scan over the elements of operand 0 was read", root.where())
+        else:
+            T.fail("K5.adjustment", "no path takes the key list from the elements of operand 0", root.where())
+    T.report(ctx, "K5.adjustment", Ka, root.key)
+    T.report(ctx, "K5.array-elements", Ke, root.key, need=False)
+    # the array test is made on operand 0 and on no other operand
+    for b in u.bodies:
+        for bi in sorted(b.reachable()):
+            tt = b.blocks[bi]["term"]
+            x = None
+            if tt["k"] == "SwitchInt":
+                e = b.xtrace(tt["discr"])
+                if e[0] == "discr" and e[2] == VALUE:
+                    x = e[1]
+            elif tt["k"] == "Call" and (callee_path(tt) or "") in ("serde_json::Value::is_array", "serde_json::Value::as_array") and tt["args"]:
+                x = b.xtrace(tt["args"][0])
+            if x is None:
+                continue
+            d = operands.describe(b, x, argsp)
+            if d.kind == "elem" and d.view == ("all",):
+                ctx.fail("K5.adjustment", "missing|kind of every operand", "the kind of every operand (not only operand 0) is examined: an array in any position is treated as a key list", where=b.where(bi), fn=b.key)
